@@ -5,7 +5,7 @@ const ghostPreludeMarker = "// ---- ghost prelude ----"
 // Names the engine intercepts (their Go bodies exist for replay only).
 var ghostBuiltinNames = []string{
 	"seq", "seqOf", "bytesOf", "cat", "cat3", "cat4", "b1", "u16be", "sub", "slen", "sat", "mkseq", "seqEq", "seq0",
-	"forallKey", "maxAlloc", "msnap", "mapSnap", "guardSnap", "snapHas", "snapGet", "mapHas", "forall", "exists", "fresh", "arrayOf", "sameArray", "ite",
+	"sameSlice", "forallKey", "maxAlloc", "msnap", "mapSnap", "guardSnap", "snapHas", "snapGet", "mapHas", "forall", "exists", "fresh", "arrayOf", "sameArray", "ite",
 	"evCount", "evIndex", "evArg", "evBytes", "evRet", "evTotal",
 	"holds", "holdsR", "closed", "isNilFunc", "closureIs", "closureVar", "sameFunc", "dynType", "typeIs",
 	"strBytesEq", "runeOK", "validUTF8", "utf8norm", "utf8normOf", "ovfFree", "unchanged", "fnCode", "readyAt",
@@ -109,6 +109,20 @@ func evArg[T any](name string, k, arg int) T { var z T; return z }
 func evRet[T any](name string, k, res int) T { var z T; return z }
 
 func ghostTrue() bool { return true }
+
+// closureIs(f, "name"): the function value f was created from the function literal / function called name.
+func closureIs[F any](f F, name string) bool { return true }
+
+// closureVar[T](f, "name", i): the i-th captured variable (a pointer to its cell) of closure f of function name.
+func closureVar[T any, F any](f F, name string, i int) T { var z T; return z }
+
+// sameFunc(a, b): a and b are the same function value (same closure object).
+func sameFunc[F any](a, b F) bool { return true }
+
+// sameSlice(a, b): same backing array, offset and length.
+func sameSlice[T any](a, b []T) bool {
+	return len(a) == len(b) && (len(a) == 0 || &a[0] == &b[0])
+}
 
 // forallKey(f): f holds for every value of its (unsigned 16-bit) key type.
 func forallKey(f func(uint16) bool) bool {
